@@ -100,6 +100,15 @@ def apply_op(world, op, ctx=None):
         n = w.nodes[op['node']]
         if n.state == 'down':
             n.kernel.inject[n.kernel.req_no + op.get('nth', 1)] = ERRNOS[op.get('errno', 'ENOMEM')]
+    elif kind == 'knlfail':
+        # a netlink transport fault (not a refusal by the kernel) on the nth request from now: 'send' = the request is not delivered,
+        # 'recv' = it is carried out but the acknowledgement is lost
+        n = w.nodes[op['node']]
+        if n.state != 'running' or n.control is None:
+            return
+        if not hasattr(n.kernel, 'nl_fault'):
+            n.kernel.nl_fault = {}
+        n.kernel.nl_fault[n.kernel.req_no + op.get('nth', 1)] = op.get('how', 'send')
     elif kind == 'sendfail':
         n = w.nodes[op['node']]
         if n.state != 'running':
